@@ -77,7 +77,7 @@ GrpcOutcome(x) == IF GrpcOK(x) THEN Smp(200, FALSE, FALSE) ELSE Smp(GE400, FALSE
 GrpcScenOutcome(x) == IF GrpcOK(x) THEN <<Smp(200, FALSE, FALSE), Smp(200, FALSE, FALSE)>> ELSE <<Smp(GE400, FALSE, FALSE)>>
 
 Outcome(gun, x, p) ==
-    CASE gun \in {"http", "http2"}                  -> <<HttpOutcome(x)>>
+    CASE gun \in {"http", "http2", "connect"}       -> <<HttpOutcome(x)>>
       [] gun \in {"http/scenario", "http2/scenario"} -> HttpScenOutcome(x, p)
       [] gun = "grpc"                                -> <<GrpcOutcome(x)>>
       [] gun = "grpc/scenario"                       -> GrpcScenOutcome(x)
